@@ -29,7 +29,7 @@ func (rfp MaskedTransformProtocol) ShallowCopy() MaskedTransformProtocol {
 	return MaskedTransformProtocol{
 		e2s:         rfp.e2s.ShallowCopy(),
 		s2e:         rfp.s2e.ShallowCopy(),
-		tmpPt:       params.RingQ().NewPoly(),
+		tmpPt:       rfp.s2e.params.RingQ().NewPoly(), // re-encryption buffer: OUTPUT parameters, as in NewMaskedTransformProtocol
 		tmpMask:     params.RingT().NewPoly(),
 		tmpMaskPerm: params.RingT().NewPoly(),
 	}
